@@ -161,6 +161,7 @@ class Walk:
     # -- the script as the mock transport sees it
     def _load(self, script_lines):
         self.cfg = (3600, 7200, 600, 0)
+        self.expire_eff = None        # "# expire_eff N": accept-any mode, the only End of Data values put expire N in force
         self.foreign = set()
         self.pre_own = set()
         self.evs = []
@@ -170,6 +171,8 @@ class Walk:
                 continue
             if w[0] == "cfg":
                 self.cfg = tuple(int(x) for x in w[1:5])
+            elif w[0] == "#" and len(w) == 3 and w[1] == "expire_eff":
+                self.expire_eff = int(w[2])
             elif w[0] == "pre":
                 r = pre_record(l)
                 (self.pre_own if r.endswith(":1") else self.foreign).add(r)
@@ -227,7 +230,7 @@ class Walk:
     # -- the walk
     def _walk(self, script_lines, trace):
         self._load(script_lines)
-        expire = self.cfg[1]
+        expire = self.expire_eff or self.cfg[1]
         self.clock = 1000
         own = set(self.pre_own)
         ghost = None                  # (session, serial) of the last exchange that reached ESTABLISHED, until a reset cause
